@@ -32,7 +32,12 @@ class Prop:
         # speaks about and the model's values are proved equal to the abstract spec, so any
         # difference on a legal history is a violation of C12 itself.
         if crash:
-            return "violation", "implementation crashed / sanitizer report: " + crash, crash
+            j = common.first_diff(impl[:len(model)], model[:len(impl)]) if impl else None
+            extra = ""
+            if j is not None and j < len(impl) and j < len(model):
+                extra = "; before that, line %d `%s`: implementation observed `%s`, proved model `%s`" % (
+                    j, lines[j] if j < len(lines) else "?", impl[j][:300], model[j][:300])
+            return "violation", "implementation crashed / sanitizer report: " + crash + extra, crash
         i = common.first_diff(impl, model)
         why = "line %d `%s`: implementation says `%s`, proved model says `%s`" % (
             i, lines[i] if i < len(lines) else "?", impl[i] if i < len(impl) else "<missing>",
@@ -121,6 +126,62 @@ def gen_case(rng, n, nobj=NOBJ, nref=NREF):
     return lines
 
 
+RING_QUICK = [1, 2, 100, 1025, 2500]
+RING_THOROUGH = RING_QUICK + [5000]
+
+
+def ring_case(rng, n, nby=3, drop=True):
+    """deterministic large-ring family: ONE object with n weak references (built by every way a reference can
+    be attached: `SafePtr r(o)`, `SafePtr r(other)`, `r = o`, `r = other`), a bystander object with nby
+    references; a few references are dropped again, the object is destroyed, every reference to it must read
+    null (theorem C12_destroy_nulls_exactly holds for rings of any size) and the bystander's ring is untouched;
+    afterwards the now-null references are re-used / destroyed.  Accepted operations answer `ok` only (`quiet`);
+    the state is observed by `obs` (run-length encoded, one short line)."""
+    by0 = n + 1
+    lines = ["universe 3 %d q" % (n + nby + 2), "newobj 1", "newobj 2"]
+    lines.append("mkrefs 2 %d %d" % (by0, by0 + nby - 1))
+    # half by the bulk constructor, the rest one at a time by the four attach operations
+    bulk = n if n <= 2 else rng.randint(n // 2, n - 1)
+    if rng.random() < 0.5 or n <= 2:
+        lines.append("mkrefs 1 1 %d" % bulk)
+        nxt = bulk + 1
+    else:
+        # interleave: the bulk part is built in two pieces around the bystander ring
+        h = max(1, bulk // 2)
+        lines.append("mkrefs 1 1 %d" % h)
+        lines.append("mkrefs 1 %d %d" % (h + 1, bulk))
+        nxt = bulk + 1
+    for r in range(nxt, n + 1):
+        k = rng.randrange(4)
+        if k == 0:
+            lines.append("newref %d 1" % r)
+        elif k == 1:
+            lines.append("copyref %d %d" % (r, rng.randint(1, r - 1)))
+        elif k == 2:
+            lines += ["newref %d %d" % (r, rng.choice([0, 2])), "assignobj %d 1" % r]
+        else:
+            lines += ["newref %d %d" % (r, rng.choice([0, 2])), "assignref %d %d" % (r, rng.randint(1, r - 1))]
+    lines.append("obs")
+    dropped = set()
+    if n > 4 and drop:
+        for r in rng.sample(range(1, n + 1), min(4, n // 3)):
+            dropped.add(r)
+            lines.append(rng.choice(["clear %d", "assignobj %d 0", "assignobj %d 2"]) % r)
+        lines.append("obs")
+    lines.append("delobj 1")
+    lines.append("obs")
+    # the references are still usable objects: re-attach a few to the bystander, destroy the rest
+    lines.append("newobj 3")
+    for r in rng.sample(range(1, n + 1), min(3, n)):
+        lines.append("assignobj %d %d" % (r, rng.choice([2, 3])))
+    lines.append("obs")
+    lines.append("delrefs 1 %d" % n)
+    lines.append("obs")
+    lines.append("delobj 2")
+    lines.append("obs")
+    return lines
+
+
 def exhaustive(maxlen, nobj=2, nref=3):
     """every legal history up to maxlen over a reduced universe (correspondence input, not proof)"""
     out = []
@@ -185,6 +246,14 @@ def check(ctx):
         if len(batch) == 200:
             bad += d.run_batch(batch); batch = []
     bad += d.run_batch(batch)
+    rings = RING_QUICK if quick else RING_THOROUGH
+    rrng = ctx.rng("ring")
+    ring_bad = 0
+    for n in rings:
+        for v in range(2 if quick else 4):
+            ring_bad += d.run_batch([("ring:%d:%d" % (n, v), ring_case(rrng, n, drop=(v % 2 == 1)))])
+    bad += ring_bad
+    ctx.stats["ring_sizes"] = rings
     exh = exhaustive(4 if quick else 5)
     ctx.stats["exhaustive_histories"] = len(exh)
     for i in range(0, len(exh), 2000):
@@ -197,9 +266,9 @@ def check(ctx):
     ctx.samples = [gen_case(ctx.rng("sample"), 12)]
     cov = {
         "evaluations": d.cases, "distinct_nontrivial": len(d.distinct),
-        "rule": "histories over %d objects / %d refs generated with liveness tracking (3%% illegal ops) plus every legal history of the stated length over 2 objects / 3 refs; non-trivial = at least one accepted operation with an observation; distinct by SHA-1 of the op lines" % (NOBJ, NREF),
+        "rule": "histories over %d objects / %d refs generated with liveness tracking (3%% illegal ops) plus every legal history of the stated length over 2 objects / 3 refs plus the deterministic large-ring family (one object with N references for each N in ring_sizes, destroyed, every reference observed); non-trivial = at least one accepted operation with an observation; distinct by SHA-1 of the op lines" % (NOBJ, NREF),
         "op_lines": d.lines, "op_histogram": d.hist, "model_answer_kinds": d.outkinds,
-        "exhaustive": False,
+        "ring_sizes": rings, "exhaustive": False,
     }
     return common.finish(ctx, "proof", cov, TRUSTED, ASSUME,
                          "cd lean && lake build && lake env lean <Audit.lean with #print axioms>; tools/check.py C12")
